@@ -123,8 +123,10 @@ class TaskPool:
         if self._tasks:
             done, _ = await asyncio.wait(self._tasks, timeout=timeout, return_when=return_when)
         for task in done:
-            self._tasks.remove(task)
-            self._done.append(task)
+            # The task may have already been removed by another coroutine that was waiting at the same time.
+            if task in self._tasks:
+                self._tasks.remove(task)
+                self._done.append(task)
         return len(done) > 0
 
 
